@@ -301,6 +301,8 @@ def make_unit(iset, cube_name, cube_pred, memarch='PMSA', nregions=1, props=('C1
                     skip = lor(lnot(r.match(instr)), d_unpred, unpred)
                     named = []
                     for k, v in r.opfields(f).items():
+                        if k not in eo.attrs:
+                            raise sym.OutOfSubset('opcode object of %s has no field %r (the decode contract names it)' % (kname, k))
                         got = eo.attrs.get(k)
                         if isinstance(v, bool) or isinstance(v, sym.SymBool) or isinstance(got, (bool, sym.SymBool)):
                             named.append((k, lor(skip, sym.eq(sym.truth(got), sym.truth(v)))))
